@@ -148,13 +148,12 @@ int main(int argc, char** argv)
                jstr("every index tuple (offset, offset0, index, operator()); every prefix of length 0..rank-1 "
                     "(offset0, dims0, vector, array, tensor, matrix); every slice 0<=b<=e<=dims[0]; every ordered "
                     "factorisation into 1..4 factors (size 0: every tuple over 0..4 containing a zero) and every "
-                    "uniquely determined -1; indexed() with all index lists of length 1..3; 19 storage conversions; "
-                    "integral into int64/double and into the scalar type itself"));
+                    "uniquely determined -1"));
         for_each_case(lat, r, "shape", [&](const uint64_t index, const std::vector<uint64_t>& d) {
             announce("shape", index);
             const auto& dims = shapes[d[0]];
             ctx_t cx{r, "shape:" + std::to_string(index), types[d[1]], show(dims), "", {}, 0, 0};
-            api.at(types[d[1]])->shape(cx, dims, false);
+            api.at(types[d[1]])->shape(cx, dims, false, 0);
             cx.done();
             if (index % 997 == 0)
             {
@@ -180,13 +179,41 @@ int main(int argc, char** argv)
             const auto& dims = larges[d[0]];
             ctx_t cx{r, "large:" + std::to_string(index), large_types[d[1]], show(dims), "", {}, 0, 0};
             g_sampled = true;
-            api.at(large_types[d[1]])->shape(cx, dims, true);
+            api.at(large_types[d[1]])->shape(cx, dims, true, 0);
             g_sampled = false;
             cx.done();
         });
     }
 
     lattice_done("large");
+
+    // the algorithms are built on the accessors: when those are already found wrong, running the algorithms would
+    // only turn diagnosed violations into memory corruption inside blocks that belong to Eigen
+    const bool accessors_ok = r.violation_count() == 0;
+    if (!accessors_ok && args.one.empty())
+    {
+        r.cap("lattices algo/removeif/stack not run: the accessor lattices already recorded violations");
+    }
+
+    // ---- algorithms on every shape ------------------------------------------------------------------------------
+    if (accessors_ok || !args.one.empty())
+    {
+        lattice_t lat;
+        lat.axis("shape", shapes.size(), jstr("as in lattice shape"));
+        lat.axis("type", types.size(), jarr_str(types));
+        lat.describe(r, "algo.");
+        r.axis("algo.per_case", jstr("indexed() with all index lists of length 1..3 over the first axis (owning result, "
+                                     "mapped result, converting result); 19 conversions between owning/map/cmap storages; "
+                                     "integral into int64/double and into the scalar type itself"));
+        for_each_case(lat, r, "algo", [&](const uint64_t index, const std::vector<uint64_t>& d) {
+            announce("algo", index);
+            const auto& dims = shapes[d[0]];
+            ctx_t cx{r, "algo:" + std::to_string(index), types[d[1]], show(dims), "", {}, 0, 0};
+            api.at(types[d[1]])->shape(cx, dims, false, 1);
+            cx.done();
+        });
+    }
+    lattice_done("algo");
 
     // ---- remove_if -----------------------------------------------------------------------------------------------
     {
@@ -205,6 +232,7 @@ int main(int argc, char** argv)
         lat.axis("width", 4, "[0,1,2,3]");
         lat.axis("type", types.size(), jarr_str(types));
         lat.describe(r, "removeif.");
+        if (accessors_ok || !args.one.empty())
         for_each_case(lat, r, "removeif", [&](const uint64_t index, const std::vector<uint64_t>& d) {
             announce("removeif", index);
             ctx_t cx{r, "removeif:" + std::to_string(index), types[d[3]], "[]", "", {}, 0, 0};
@@ -225,6 +253,7 @@ int main(int argc, char** argv)
                                            "tensor + Eigen matrix / rank-1 tensor as column / transposed vector as row"));
         lat.axis("type", types.size(), jarr_str(types));
         lat.describe(r, "stack.");
+        if (accessors_ok || !args.one.empty())
         for_each_case(lat, r, "stack", [&](const uint64_t index, const std::vector<uint64_t>& d) {
             announce("stack", index);
             ctx_t cx{r, "stack:" + std::to_string(index), types[d[2]], "[]", "", {}, 0, 0};
